@@ -38,7 +38,7 @@ GInit ==
     /\ phase = "enc"
     /\ todo = << ValTask(Ref(Len(env))) >>
     /\ frames = <<>> /\ outL = <<>> /\ outB = <<>> /\ role = <<>>
-    /\ walk = <<>> /\ k = 1 /\ gend = 0
+    /\ walk = <<>> /\ k = 1 /\ gend = 0 /\ ust = 0
 
 GNext == EncNext /\ UNCHANGED gid
 GSpec == GInit /\ [][GNext]_gvars
@@ -50,7 +50,8 @@ GVector ==
     [gid |-> gid, lay |-> lay, root |-> root, walk |-> walk, outL |-> outL, outB |-> outB,
      role |-> [p \in 1..Len(role) |-> role[p][1]],
      wid |-> [p \in 1..Len(role) |-> role[p][2]],
-     gta |-> GreedyTailAligned]
+     gta |-> GreedyTailAligned, ust |-> ust,
+     raw |-> [i \in 1..Len(env) |-> IF env[i].k = "struct" THEN RawTable(Parts(SubSeq(lay, 1, i - 1), env[i].ms)) ELSE <<>>]]
 GDump == phase = "done" => PrintT("GVEC " \o ToJson(GVector))
 
 (* ---- trace validation --------------------------------------------------- *)
@@ -61,7 +62,7 @@ NextEv == TWalk[Len(walk) + 1]
 \* silent (deterministic) steps need no event; choice steps consume one
 TNext ==
     /\ UNCHANGED gid
-    /\ \/ EncEnterStruct \/ EncLeave \/ EncPad \/ EncZero \/ EncArray \/ EncGreedyEnd
+    /\ \/ EncEnterStruct \/ EncLeave \/ EncPad \/ EncZero \/ EncArray \/ EncGreedyEnd \/ EncUMark
        \/ (HasEv /\ NextEv.e = "int"  /\ EncScalarV(NextEv.v))
        \/ (HasEv /\ NextEv.e = "enum" /\ EncEnum(NextEv.n))
        \/ (HasEv /\ NextEv.e = "len"  /\ Top.op = "cnt" /\ EncCounterAny(NextEv.n))
